@@ -32,6 +32,8 @@ pub struct H {
     pub enabled_handle: bool,
     /// per-layer filter `enabled` evaluations on this thread during the operation
     pub evals: u64,
+    /// uid of the explicit parent of an `event_in`
+    pub par_uid: u64,
 }
 pub static HIST: Mutex<Vec<H>> = Mutex::new(Vec::new());
 static TURN: AtomicUsize = AtomicUsize::new(0);
@@ -133,6 +135,24 @@ pub fn exec_step(gi: usize, t: usize, stack: usize, s: &Value, entered: &mut Vec
         "event" => {
             h.uid = uid;
             sites::emit_event(site, uid);
+        }
+        "event_in" => {
+            // an event whose parent is named explicitly: a span held in a slot, entered or not
+            let x = SLOTS.lock().unwrap()[stack][slot].take();
+            match x {
+                Some(e) if !e.span.is_disabled() => {
+                    h.uid = uid;
+                    h.par_uid = e.uid;
+                    h.op = "event".into();
+                    sites::emit_event_in(site, uid, &e.span);
+                    SLOTS.lock().unwrap()[stack][slot] = Some(e);
+                }
+                Some(e) => {
+                    h.applied = false;
+                    SLOTS.lock().unwrap()[stack][slot] = Some(e);
+                }
+                None => h.applied = false,
+            }
         }
         "probe" => {
             h.res_bool = sites::probe(site);
@@ -286,7 +306,13 @@ fn gen_workload(rng: &mut Rng, t: u64, n: u64, probes: bool) -> Vec<Value> {
                     json!({"t": t, "op": "event", "site": site})
                 }
             }
-            _ => json!({"t": t, "op": "event", "site": site}),
+            _ => {
+                if rng.chance(1, 5) {
+                    json!({"t": t, "op": "event_in", "slot": slot, "site": site})
+                } else {
+                    json!({"t": t, "op": "event", "site": site})
+                }
+            }
         };
         v.push(st);
     }
@@ -557,7 +583,23 @@ pub fn oracle(hist: &[H], log: &[LRec], models: &[StackModel], stacks: &[Vec<Val
                         if h.op == "event" {
                             // scope of the event: the leaf's current span, then parent links, minus hidden spans
                             let mut want_chain = vec![];
-                            let mut u = view(r.layer, &spans).unwrap_or(0);
+                            // (an explicit parent replaces the thread's current span as the start of the scope; if the
+                            // leaf never received that parent, the event has no span at all for this leaf)
+                            let mut u = if h.par_uid != 0 {
+                                if spans.get(&h.par_uid).map_or(false, |s| s.recv.contains(&r.layer)) {
+                                    h.par_uid
+                                } else {
+                                    0
+                                }
+                            } else {
+                                view(r.layer, &spans).unwrap_or(0)
+                            };
+                            let want_evspan = spans.get(&u).map(|s| s.id).unwrap_or(0);
+                            if h.par_uid != 0 && r.evspan != want_evspan {
+                                let class = if want_evspan == 0 { "hidden-span-visible" } else { "visible-span-hidden" };
+                                violation(class, format!("stack {si} leaf {} event op {} with explicit parent uid {}: event_span() gave id {} but this leaf's view makes it id {}", r.layer, h.gi, h.par_uid, r.evspan, want_evspan));
+                                return;
+                            }
                             while u != 0 {
                                 match spans.get(&u) {
                                     Some(s) => {
